@@ -440,6 +440,7 @@ private:
     void doParamEdit(const Step &st, StepRecord &rec);
     void doFrameDup(const Step &st, StepRecord &rec);
     void doLookup(const Step &st, StepRecord &rec);
+    void doAdopt(const Step &st, StepRecord &rec);
     void doFrameSubmit(const Step &st, StepRecord &rec);
     void doFrameMutate(const Step &st, StepRecord &rec);
     void doCol(const Step &st, StepRecord &rec, bool analog);
@@ -899,6 +900,75 @@ void World::doFrameDup(const Step &st, StepRecord &rec) {
     }
     probe("frame.duplicate-own");
     afterCall(st, rec.threw, rec.exc, before, true);
+}
+
+// C18: data flows from one object into another. The donor is shared (read-only) by every thread of the case; what a thread
+// stores from it must be its own afterwards (a later edit of one thread's object must not show in another's).
+static std::unique_ptr<ezc3d::c3d> g_donor;
+static void donor_drop_impl() { g_donor.reset(); }
+static void donor_make_impl(uint64_t seed) {
+    g_donor.reset();
+    if (!seed) return;
+    Rng r(seed);
+    unsigned P = 1 + static_cast<unsigned>(r.below(4));
+    unsigned A = static_cast<unsigned>(r.below(3));
+    unsigned F = 2 + static_cast<unsigned>(r.below(3));
+    unsigned S = 1 + static_cast<unsigned>(r.below(2));
+    std::unique_ptr<ezc3d::c3d> d(new ezc3d::c3d());
+    { EParam p("RATE"); p.set(std::vector<float>() = {100.0f}); d->parameter("POINT", p); }
+    { EParam p("RATE"); p.set(std::vector<float>() = {100.0f * static_cast<float>(S)}); d->parameter("ANALOG", p); }
+    for (unsigned p = 0; p < P; ++p) d->point("DP" + tos(p));
+    for (unsigned a = 0; a < A; ++a) d->analog("DA" + tos(a));
+    for (unsigned f = 0; f < F; ++f) {
+        EFrame fr; EPoints pts; EAnalogs an;
+        for (unsigned p = 0; p < P; ++p) {
+            EPoint pt; pt.name("DP" + tos(p));
+            float x = static_cast<float>(r.below(2000)) / 8.0f; pt.x(x);
+            float y = static_cast<float>(r.below(2000)) / 8.0f; pt.y(y);
+            float z = static_cast<float>(r.below(2000)) / 8.0f; pt.z(z);
+            pts.point(pt);
+        }
+        for (unsigned s = 0; s < (A ? S : 0); ++s) {
+            ESub sf;
+            for (unsigned a = 0; a < A; ++a) { EChan c; c.name("DA" + tos(a)); float v = static_cast<float>(r.below(4000)) / 4.0f; c.data(v); sf.channel(c); }
+            an.subframe(sf);
+        }
+        fr.add(pts, an);
+        d->frame(fr);
+    }
+    g_donor = std::move(d);
+}
+
+void World::doAdopt(const Step &st, StepRecord &rec) {
+    if (!obj || st.i.empty() || !g_donor) { rec.skipped = true; return; }
+    const ezc3d::c3d &D = *g_donor;
+    size_t dn = D.data().nbFrames();
+    if (!dn) { rec.skipped = true; return; }
+    uint64_t sd = static_cast<uint64_t>(st.i[0]);
+    Snapshot before = cur;
+    int64_t u = 0, a = 0;
+    get_int(cur, "POINT", "USED", u); get_int(cur, "ANALOG", "USED", a);
+    try {
+        if (cur.frames.empty() && u == 0 && a == 0) {
+            { EParam p("RATE"); p.set(std::vector<float>() = {D.header().frameRate()}); obj->parameter("POINT", p); }
+            { EParam p("RATE"); p.set(std::vector<float>() = {D.header().frameRate() * static_cast<float>(D.header().nbAnalogByFrame())}); obj->parameter("ANALOG", p); }
+            for (auto &n : D.parameters().group("POINT").parameter("LABELS").valuesAsString()) obj->point(n);
+            for (auto &n : D.parameters().group("ANALOG").parameter("LABELS").valuesAsString()) obj->analog(n);
+            for (size_t f = 0; f < dn; ++f) obj->frame(D.data().frame(f));      // append, by reference into the donor
+            obj->frame(D.data().frame((sd >> 8) % dn), sd % dn);               // replace an existing frame, by reference into the donor
+            rec.aux = 901;
+        } else {
+            size_t n = cur.frames.size();
+            const EFrame &src = D.data().frame((sd >> 8) % dn);
+            if (n && (sd & 1)) obj->frame(src, (sd >> 16) % n); else obj->frame(src);
+            rec.aux = 902;
+        }
+    } catch (...) { rec.threw = true; rec.exc = classify_current_exception(&lastWhat); }
+    cur = take_snapshot(*obj);
+    model = cur.frames;
+    ctxTag = "adopt";
+    probe(rec.threw ? "frame.adopt-from-other-object.refused" : "frame.adopt-from-other-object");
+    (void)before;
 }
 
 // the caller copies a parameter out of the object, edits the copy through its setters and hands it back
@@ -1683,6 +1753,7 @@ void World::run() {
         case OP_PARAM_EDIT: doParamEdit(st, rec); break;
         case OP_FRAME_DUP: doFrameDup(st, rec); break;
         case OP_LOOKUP: doLookup(st, rec); break;
+        case OP_ADOPT: doAdopt(st, rec); break;
         default: rec.skipped = true; break;
         }
         rec.snap_hash = obj ? hash_snapshot(cur) : 0;
@@ -1705,6 +1776,9 @@ void World::run() {
 }
 
 } // namespace
+
+void donor_make(uint64_t seed) { donor_make_impl(seed); }
+void donor_drop() { donor_drop_impl(); }
 
 RunResult run_plan(const Plan &plan, const ExecCfg &cfg) {
     RunResult r;
